@@ -17,7 +17,7 @@ class Contract:
                  raises=None, raises_ensures=None, modifies=(), loops=None, inline=False,
                  trusted=False, prop=None, closure=None, note="", param_names=None,
                  allow_any_raise=False, replay=None, cases=None, ghost_params=None, frame=None,
-                 decreases=None, raise_modifies=(), assumes=(), ghost_after=None, inline_callees=(), tier="quick", call_inline=False):
+                 decreases=None, raise_modifies=(), assumes=(), ghost_after=None, inline_callees=(), tier="quick", call_inline=False, raises_fields=None):
         self.key = key
         self.params = dict(params or {})
         self.self_model = self_model
@@ -54,6 +54,8 @@ class Contract:
         # call sites execute the real body instead of assuming this contract (used where clauses talk about
         # the interpreter-level callback log, which a modular call cannot reproduce)
         self.call_inline = call_inline
+        # attributes carried by an exception this contract raises: {class: {attr: shape}} (fresh, constrained by raises_ensures via `exc`)
+        self.raises_fields = dict(raises_fields or {})
         self.tier = tier   # 'thorough': only verified in the thorough tier (slow generation)
         self.inline = inline
         self.trusted = trusted
